@@ -1168,7 +1168,9 @@ impl LZDiff {
         }
 
         // Remaining bases are literals
-        est_cost += text_size - i;
+        // A back-extended match advances `i` by the backward part as well, so `i` can end
+        // up past `text_size`; nothing is left to count in that case.
+        est_cost += text_size.saturating_sub(i);
 
         est_cost
     }
